@@ -445,6 +445,26 @@ impl<T> Shared<T> {
     removed
   }
 
+  /// Wake chaining for the async drip. A progress publication wakes exactly ONE
+  /// queued async sender however many credits it freed, and the consumer may
+  /// then park on an empty queue and never publish again. A woken sender that
+  /// has sent and still sees the window open therefore lets the next queued
+  /// sender try; otherwise that sender sleeps next to free capacity - forever,
+  /// if the consumer is itself waiting for an item.
+  pub(crate) fn chain_async_send_wake(&self) {
+    if self.async_send_waiter_count.load(Ordering::Relaxed) == 0 || !self.window_open() {
+      return;
+    }
+    let mut g = self.async_send_waiters.lock();
+    if let Some((_id, waker, _)) = g.queue.pop_front() {
+      self
+        .async_send_waiter_count
+        .store(g.queue.len(), Ordering::Release);
+      drop(g);
+      waker.wake();
+    }
+  }
+
   /// Leave the async send-waiter set WITHOUT having sent (future dropped, or the
   /// send failed). The async wake policy is a metered drip - exactly one waiter
   /// per progress publication - so a waiter that was already dequeued and woken
